@@ -13,7 +13,7 @@ POLY_SKY = 'regions/shapes/polygon.py::PolygonSkyRegion'
 
 VALUES = ('pos', 'nonpos', 'posint', 'zeroint', 'nan', 'inf', 'ninf', 'str', 'none', 'list', 'tuple', 'arr0', 'arr1', 'bool',
           'q_pix', 'q_sr_pos', 'q_deg_pos', 'q_deg_nonpos', 'q_deg_inf', 'q_deg_nan', 'q_rad_any', 'q_deg_arr', 'pix_scalar', 'pix_arr1', 'pix_arr2',
-          'sky_scalar', 'sky_arr1', 'dict')
+          'sky_scalar', 'sky_arr1', 'sky_arr2', 'dict')
 
 
 def make_value(B, kind):
@@ -88,6 +88,11 @@ def make_value(B, kind):
         return sky(B, 'vs')
     if kind == 'sky_arr1':
         return sky_array(B, 'vs')
+    if kind == 'sky_arr2':
+        from astropy.coordinates import SkyCoord
+        n = B.int('vs.n')
+        return B.call(SkyCoord, B.call(u.Quantity, B.array('vs.lons', (n, 2)), u.deg), B.call(u.Quantity, B.array('vs.lats', (n, 2)), u.deg),
+                      frame='icrs')
     if kind == 'dict':
         return {'label': 'x'}
     raise ValueError(kind)
